@@ -971,6 +971,7 @@ WITNESSES = {
     ],
     "C09": lambda: [
         ("F_ptrMapper", mk_spec([F("Count", INT)], [F("Count", STR)], funcs=[(INT, STR), (STR, INT)], mapper_ptr=True)),
+        ("F_selfEmbed", mk_spec([BACK("Node"), F("Val", INT)], [F("Val", INT)], sname="Node")),
     ],
     "C15": lambda: [
         ("F_setOnlyRead", mk_spec([F("Wo", INT)], [F("wo", INT, set=True)], dest_kind="new")),
@@ -1116,14 +1117,20 @@ def c01_case(ctx, g, cid, mode, opts, new_sides=()):
 def c01_observe(ctx, cases):
     """exit / compile / header / gofmt / package for the generated files of the src package"""
     from . import core, pkgrun
+    hung = probe_cyclic(ctx, cases)
     b = pkgrun.Batch(ctx, "c01map")
     for c in cases:
-        b.add(c)
+        if c["id"] not in hung:
+            b.add(c)
     out = b.execute()
     p = core.run(["gofmt", "-l", "."], cwd=b.root)
     unformatted = set(p.stdout.split())
     impl = {}
     for c in cases:
+        if c["id"] in hung:
+            impl[c["id"]] = {"exit": hung[c["id"]]}
+            c["detail"] = {"compile": "skipped", "stderr": "shoot did not come back with exit 0 under a 3 GB / 60 s limit: " + hung[c["id"]], "written": []}
+            continue
         r = out[c["id"]]
         rcs = [x["rc"] for x in r["runs"]]
         rc = 0 if all(x == 0 for x in rcs) else [x for x in rcs if x != 0][0]
@@ -1144,7 +1151,7 @@ def c01_leg(ctx, res, n):
     from . import core
     rng = ctx.rng
     g = MapGen(rng)
-    base = dict(multi=0.0, dupfunc=0.0)
+    base = dict(multi=0.0, dupfunc=0.0, selfembed=0.0)
     plan = []          # (mode, generator options, accessor-mode sides)
     # 1. every selection mode x the flag settings, plain pairs with the whole type palette
     for k, fl in enumerate([{}, {"way": "to"}, {"way": "from"}, {"i": True}, {"alias": "domain"}, {"i": True, "alias": "tgt", "way": "to"}]):
@@ -1154,7 +1161,10 @@ def c01_leg(ctx, res, n):
     shaped = [dict(kinds=["namedscalar", "same"], names=["ident"]), dict(kinds=["ptrconv", "same"], names=["ident"]),
               dict(kinds=["conv"], names=["ident"], n=(4, 5)), dict(kinds=["sub", "each"], names=["ident", "tag"]),
               dict(kinds=["func", "funconly"], names=["ident", "acronym"]), dict(embeds=1.0, depth2=1.0, ptr_embed=0.7, deep=0.9),
-              dict(kinds=["same", "conv", "func"], func_over=0.6), dict(manual=1.0)]
+              dict(kinds=["same", "conv", "func"], func_over=0.6), dict(manual=1.0),
+              # cyclic embedding (the generator has to come back): self on the source side, mutual on the destination side
+              dict(embeds=1.0, selfembed=1.0, selfembed_side="src", selfembed_variant="self"),
+              dict(embeds=1.0, selfembed=1.0, selfembed_side="dest", selfembed_variant="mutual")]
     for k, o in enumerate(shaped):
         plan.append((C01_MODES[k % 4] if "embeds" not in o else "type", dict(base, **o), ()))
     # 3. accessor-mode sides (constructor + getters/setters), single-type runs
